@@ -2470,4 +2470,68 @@ def stream_narrowing(ctx, reqs, pending):
                     if all(x[0] == 'ok' for x in singles) and (batch[0] != 'ok' or not np.array_equal(batch[1], np.stack([x[1] for x in singles]))):
                         ctx.fail({'stream': 'narrow', 'image': iname, 'variant': vname, 'mod': mod, 'dtype': dname, 'frame': 'all'},
                                  {'why': 'get_frames differs from the single reads', 'res': str(batch[1:])[:200]}, site='narrowing/get_frames')
-    ctx.exhaustive.append('narrowing: 3 stored types x 8 variants (no / identity / partial / shifting rescale, inverse) x modality flag x 7 integer dtypes x 2 frames')
+    # ---- FLOATING-POINT stored values (parametric maps, BitsAllocated 32 / 64) read with integer and float output types and no
+    # transform: a value outside the integer type must be refused, never wrapped (audit 2; unchecked before fix 9e55dbc).  Frames of
+    # float pixel data can only be read once the whole array is cached (C05's open finding C05-float-pixel-data-frames), so the
+    # array is accessed first.
+    from pydicom.uid import ParametricMapStorage
+    from gen.pixeltransforms import make_image
+    fvals = np.array([[[300.75, -1.5, 7.0, 0.0]], [[3.0, 2.5, 255.0, 127.0]], [[1e10, 65535.0, -32768.0, 1.0]]])
+    for bits, fdt in ((32, np.float32), (64, np.float64)):
+        ds = make_image({'bits': 16, 'signed': False, 'bits_stored': 16, 'photometric': 'MONOCHROME2',
+                         'frames': [[[1, 2, 3, 4]]] * 3, 'T': {}})
+        ds.SOPClassUID = ParametricMapStorage
+        ds.file_meta.MediaStorageSOPClassUID = ParametricMapStorage
+        ds.BitsAllocated = bits
+        for k_ in ('BitsStored', 'HighBit', 'PixelData'):
+            if k_ in ds:
+                del ds[k_]
+        arr = fvals.astype(fdt)
+        setattr(ds, 'FloatPixelData' if bits == 32 else 'DoubleFloatPixelData', arr.tobytes())
+        st = call(hd_image.Image.from_dataset, ds)
+        if st[0] != 'ok' or call(lambda: st[1].pixel_array)[0] != 'ok':
+            ctx.note('float narrowing image could not be built')
+            continue
+        im = st[1]
+        for dname in ('uint8', 'int8', 'uint16', 'int16', 'int32', 'int64', 'float32', 'float64'):
+            odt = np.dtype(dname)
+            kw = dict(apply_real_world_transform=False, apply_modality_transform=False, apply_voi_transform=False, dtype=odt)
+            tr = call(hd_image._CombinedPixelTransform, im, frame_index=0, output_dtype=odt,
+                      apply_real_world_transform=False, apply_modality_transform=False, apply_voi_transform=False)
+            if tr[0] == 'ok':
+                t = tr[1]
+                reqs.append(('outputRules', {
+                    'has_lut': t._effective_lut_data is not None, 'has_cm': t._color_manager is not None, 'lut_dtype_differs': False,
+                    'in_float': t.input_dtype.kind == 'f', 'has_si': t._effective_slope_intercept is not None, 'si_identity': False,
+                    'has_window': t._effective_window_center_width is not None, 'out_kind': t.output_dtype.kind,
+                    'in_kind': t.input_dtype.kind, 'can_cast_safe': bool(np.can_cast(t.input_dtype, t.output_dtype, 'safe')),
+                    'color_type': t._color_type.name}))
+                pending.append(({'stream': 'narrow', 'image': f'float{bits}', 'dtype': dname,
+                                 'what': 'output-type rules (T6p) vs transform attributes, float pixels', 'layer': 'L2'},
+                                {'has_si': t._effective_slope_intercept is not None,
+                                 'check_output_range': bool(t._check_output_range), 'color_output': bool(t.color_output)}))
+                if dname == 'uint8':
+                    reqs.append(('inputType', {'is_pmap': True, 'bits_allocated': bits, 'pixel_representation': 0, 'bits_stored': bits}))
+                    pending.append(({'stream': 'narrow', 'image': f'float{bits}', 'what': 'type of float stored values (T6r)', 'layer': 'L2'},
+                                    {'dtype': 200 + bits if t.input_dtype == np.dtype(fdt) else -1, 'has_range': False, 'lo': 0, 'hi': 0}))
+            for f in range(arr.shape[0]):
+                res = call(im.get_frame, f + 1, **kw)
+                case = {'stream': 'narrow', 'image': f'float{bits}', 'variant': 'float-pixels', 'mod': False, 'dtype': dname, 'frame': f}
+                x = arr[f]
+                fits = True
+                if odt.kind in 'ui':
+                    info = np.iinfo(odt)
+                    fits = bool(x.min() >= info.min and x.max() <= info.max)
+                ctx.case(nontrivial_key=('narrow-float', bits, dname, f) if res[0] == 'ok' else None, narrowing='float-pixels',
+                         narrowing_outcome=res[0])
+                if res[0] == 'ok':
+                    if not fits:
+                        ctx.fail(case, {'why': 'a float stored value outside the integer output type was cast instead of refused (wrapped)',
+                                        'got': np.asarray(res[1]).tolist(), 'stored': x.tolist()}, site='narrowing/float-pixels')
+                    elif not np.array_equal(np.asarray(res[1]), x.astype(odt)):
+                        ctx.fail(case, {'why': 'float stored values read without transform are not the stored values in the output type',
+                                        'got': np.asarray(res[1]).tolist(), 'stored': x.tolist()}, site='narrowing/float-pixels')
+                elif fits:
+                    ctx.fail(case, {'why': 'float stored values that fit the output type were refused', 'error': res[2]}, site='narrowing/float-pixels')
+    ctx.exhaustive.append('narrowing: 3 stored types x 8 variants (no / identity / partial / shifting rescale, inverse) x modality flag x 7 integer dtypes x 2 frames; '
+                          'float32 / float64 pixels x 8 output types x 3 frames')
